@@ -360,6 +360,34 @@ func (i *Interface) PutNew(r record.Record) (err error) {
 // - Caching
 // Use with care.
 func (i *Interface) PutMany(dbName string) (put func(record.Record) error) {
+	batchPut := i.putMany(dbName)
+	if i.cache == nil {
+		return batchPut
+	}
+
+	// Keep the cache current: it would otherwise continue to serve the
+	// previous version of a record written by the batch.
+	return func(r record.Record) error {
+		if r == nil {
+			return batchPut(nil)
+		}
+
+		// Get the attributes for the cache before handing over the record.
+		r.Lock()
+		i.options.Apply(r)
+		remove := r.Meta().IsDeleted()
+		ttl := r.Meta().GetRelativeExpiry()
+		r.Unlock()
+
+		err := batchPut(r)
+		if err == nil {
+			i.updateCacheAfterBatchPut(r, remove, ttl)
+		}
+		return err
+	}
+}
+
+func (i *Interface) putMany(dbName string) (put func(record.Record) error) {
 	interfaceBatch := make(chan record.Record, 100)
 
 	// permission check
@@ -572,7 +600,17 @@ func (i *Interface) Purge(ctx context.Context, q *query.Query) (int, error) {
 		return 0, ErrReadOnly
 	}
 
-	return db.Purge(ctx, q, i.options.Local, i.options.Internal)
+	// Write out delayed writes first, so that they are subject to the purge.
+	i.FlushCache()
+
+	n, err := db.Purge(ctx, q, i.options.Local, i.options.Internal)
+
+	// Purged records may not be served from the cache anymore.
+	if i.cache != nil {
+		i.cache.Purge()
+	}
+
+	return n, err
 }
 
 // Subscribe subscribes to updates matching the given query.
